@@ -226,7 +226,12 @@ func rulesC11(c *Ctx) {
 		rs := o.SuccessReturns()
 		got := ""
 		for _, r := range rs {
-			e := o.Of(r.Results[0]).String()
+			ex := o.Of(r.Results[0])
+			// a path walked by a loop over its written-out components is the same chain of derivations
+			if fx := o.FoldAtExit(r.Results[0], r); fx != nil {
+				ex = fx
+			}
+			e := ex.String()
 			if got != "" && e != got {
 				return got + " | " + e, false
 			}
